@@ -242,7 +242,8 @@ def run(ctx):
     from . import C13
     sub = core.Ctx('C13', ctx.src, ctx.tier)
     C13.run(sub)
-    rel = ('C13.field-unvisited', 'C13.visit-once', 'C13.flags', 'C13.class-dispatched', 'C13.replace-exact', 'C13.callback-first', 'C13.callback-once')
+    rel = ('C13.field-unvisited', 'C13.visit-once', 'C13.flags', 'C13.class-dispatched', 'C13.replace-exact', 'C13.callback-first', 'C13.callback-once',
+           'C13.visit-unconditional')
     ctx.setcount('walker_obligations', sum(v[0] for k, v in sub.rules.items() if k in rel))
     bad = [f for f in sub.findings if f.rule in rel]
     ctx.ob('C11.walker', 'all', True, '')
